@@ -151,6 +151,9 @@ class Context(object):
     # pylint: disable=too-many-instance-attributes
     LAYER_NAMES = ["testrun", "feature", "rule", "scenario"]
     FAIL_ON_CLEANUP_ERRORS = True
+    # -- RECORD (filename, line, _, function): For attributes that were not
+    # assigned via setattr (initial root attributes, _set_root_attribute()).
+    UNKNOWN_RECORD = ("<unknown>", 0, None, "<unknown>")
 
     def __init__(self, runner):
         self._runner = weakref.proxy(runner)
@@ -324,7 +327,7 @@ class Context(object):
             if frame is self.__dict__["_root"]:
                 continue
             if attr in frame:
-                record = self.__dict__["_record"][attr]
+                record = self.__dict__["_record"].get(attr, self.UNKNOWN_RECORD)
                 params = {
                     "attr": attr,
                     "filename": record[0],
@@ -339,11 +342,13 @@ class Context(object):
 
     def _emit_warning(self, attr, params):
         msg = ""
-        if self._mode is ContextMode.BEHAVE and self._origin[attr] is not ContextMode.BEHAVE:
+        # -- NOTE: Initial root attributes have no origin record (set by behave).
+        origin = self._origin.get(attr, ContextMode.BEHAVE)
+        if self._mode is ContextMode.BEHAVE and origin is not ContextMode.BEHAVE:
             msg = "behave runner is masking context attribute '%(attr)s' " \
                   "originally set in %(function)s (%(filename)s:%(line)s)"
         elif self._mode is ContextMode.USER:
-            if self._origin[attr] is not ContextMode.USER:
+            if origin is not ContextMode.USER:
                 msg = "user code is masking context attribute '%(attr)s' " \
                       "originally set by behave"
             elif self._config.verbose:
@@ -384,7 +389,7 @@ class Context(object):
 
         for frame in self._stack[1:]:
             if attr in frame:
-                record = self._record[attr]
+                record = self._record.get(attr, self.UNKNOWN_RECORD)
                 params = {
                     "attr": attr,
                     "filename": record[0],
@@ -407,7 +412,7 @@ class Context(object):
         frame = self._stack[0]
         if attr in frame:
             del frame[attr]
-            del self._record[attr]
+            self._record.pop(attr, None)
         else:
             msg = "'{0}' object has no attribute '{1}' at the current level"
             msg = msg.format(self.__class__.__name__, attr)
